@@ -31,6 +31,7 @@ func init() {
 		},
 		Strata: []fw.Stratum{
 			{Name: "payloader-instances", N: fw.Const(150000, 4000000), Run: c12Pay},
+			{Name: "payloader-long-runs", N: fw.Const(6, 100), Run: c12Long},
 			{Name: "header-parser", N: fw.Const(300000, 8000000), Run: c12Hdr},
 			{Name: "descriptor-decoder", N: fw.Const(600000, 15000000), Run: c12Dec},
 		},
@@ -471,4 +472,39 @@ func c12Dec(c *fw.Ctx, i int) {
 	if c.WantSample() {
 		c.Sample(map[string]any{"descriptor": fw.Trunc(fw.Hex(enc), 120), "fields": fmt.Sprintf("%+v", *d)})
 	}
+}
+
+// c12Long: one instance, 70 000 tiny frames: the 15-bit picture id must go
+// through two complete wraps with the library's own counter.
+func c12Long(c *fw.Ctx, i int) {
+	r := c.R
+	flex := i%2 == 0
+	start := uint16(r.Pick(0, 0x7FFF, 0x7FFE, r.Intn(0x8000)))
+	p := &codecs.VP9Payloader{FlexibleMode: flex, InitialPictureIDFn: func() uint16 { return start }}
+	frame := []byte{0x86, 0x00} // profile 0 non-key frame header start (parsable in non-flexible mode)
+	for k := 0; k < 70000; k++ {
+		var pkts [][]byte
+		if pv, st := fw.Guard(func() { pkts = p.Payload(20, frame) }); pv != nil {
+			c.Fail("C12/payloader/panic/"+fw.PanicFunc(st), fmt.Sprintf("VP9Payloader.Payload panicked: %v", pv), fw.W("frame_index", k, "stack", st))
+			return
+		}
+		want := uint16((int(start) + k) % 32768)
+		if len(pkts) != 1 {
+			c.Fail("C12/payloader/no-packets", fmt.Sprintf("frame %d: %d packets", k, len(pkts)), fw.W("frame_index", k))
+			return
+		}
+		d, _, ok := ref.VP9Parse(pkts[0])
+		if !ok || !d.I || !d.M || d.PictureID != want {
+			got := -1
+			if ok {
+				got = int(d.PictureID)
+			}
+			c.Fail("C12/payloader/picture-id-value/long-run", fmt.Sprintf("frame %d on one instance (start %d) carries picture id %d, expected %d", k, start, got, want), fw.W("frame_index", k, "start", start, "packet", fw.Hex(pkts[0])))
+			return
+		}
+	}
+	c.Evals(70000)
+	c.Count("instances_crossing_two_15bit_wraps", 1)
+	c.Shapef("long|flex%v|start%d", flex, start>>12)
+	c.Sample(map[string]any{"mode_flexible": flex, "start_picture_id": start, "frames": 70000})
 }
